@@ -37,6 +37,12 @@ pub static mut NLS_SPACE: bool = false; // last required_newline_or_space return
 pub static mut SPACES_OK: usize = 0;
 /// T3: the stubs read the ghost token queue filled by the real writer (flussab::verif_q)
 pub static mut SCRIPT: bool = false;
+/// parse_prealloc_bound: leave `Parser::parse` right after its pre-allocation block
+pub static mut CUT_AFTER_PREALLOC: bool = false;
+
+pub fn cut_after_prealloc() -> bool {
+    unsafe { ON && CUT_AFTER_PREALLOC }
+}
 
 fn script() -> bool {
     unsafe { SCRIPT }
